@@ -542,8 +542,8 @@ def strategy(draw):
     chosen = draw(st.permutations(names))[:k]
     for prop, d in zip(props, chosen):
         case["map"][prop] = d
-    if "hue" in case["map"] and "color" not in case["map"]:
-        case["map"]["color"] = case["map"].pop("hue")
+    # (a dimension given through ``hue=`` alone stays spelled that way: the
+    # package treats it as the colour mapping, order selection included)
     if mode == "hist":
         case["p_nan"] = 0.0
         case["bins"] = draw(st.sampled_from([None, 4, 7, "edges"]))
